@@ -1064,10 +1064,10 @@ Lemma front_same : forall e c0 c md, dom e c -> mid e c0 c md -> ready c -> fron
   md = Partial /\ c_fmaps c = c_fmaps c0 /\ (forall h, h_items (c_h c) h = h_items (c_h c0) h) /\
   (forall h, rssl c h = rssl c0 h).
 Proof.
-  intros e c0 c md [Db [Dh Dt]] [Mb Mr] [_ Ri] G. apply front_guard_false in G. destruct G as [G1 [G2 G3]].
+  intros e c0 c md [Db [Dh Dt]] [Mb Mr] Ri G. apply front_guard_false in G. destruct G as [G1 [G2 G3]].
   destruct md; cbn in Mr.
   - destruct Mr as [_ [Mr _]]. congruence.
-  - destruct Mr as [M1 [M2 [M3 M4]]]. split; auto. split; auto.
+  - destruct Mr as [M1 [M2 [M3 [M4 M5]]]]. split; auto. split; auto.
     assert (Hh : forall h, h_items (c_h c) h = h_items (c_h c0) h) by (apply (hosts_unchanged e); auto).
     split; auto. apply rssl_ext; auto.
     intros h hc b Eh Er. unfold rootdep_changed in G3. apply andb_false_iff in G3. destruct G3 as [G3|G3].
@@ -1107,7 +1107,7 @@ Proof.
     intros C p Hp. destruct md; cbn in Mr.
     + destruct Mr as [_ [_ [_ [_ Mt]]]]. exfalso. unfold port_used in Hp. apply existsb_exists in Hp.
       destruct Hp as [t [_ Ht]]. rewrite (Mt C t) in Ht. rewrite andb_false_r in Ht. discriminate.
-    + destruct Mr as [_ [_ [_ Mt]]]. specialize (Mt C).
+    + destruct Mr as [_ [_ [_ [Mt _]]]]. specialize (Mt C).
       rewrite (port_used_ext e _ _ p Mt) in Hp. destruct (di_tcpmap _ _ _ I p Hp) as [f [Hf Hg]].
       exists f. split; auto. intros t. rewrite Hg. unfold restrict_port. rewrite Mt. reflexivity.
   - (* frontend maps *)
@@ -1142,12 +1142,12 @@ Proof.
     intros Ecl j Hj C x Hx. destruct (Hvg Ecl) as [_ Hv]. rewrite <- (Hv x). apply (shard_unflagged e _ _ j); auto.
   - intros Ecl. apply (Hcl Ecl).
   - (* no-op *)
-    intros U. destruct (updated_same e c0 c1 md D M G U) as [-> [Go [Eg [Et [Eh Eb]]]]].
+    intros U. destruct (updated_same e c0 c1 md D M G Dp U) as [-> [Go [Eg [Et [Eh [Eb Ed]]]]]].
     assert (Er : forall h, rssl c1 h = rssl c0 h) by (apply rssl_ext; auto).
     split.
     + destruct (di_main _ _ _ I Go) as [m [M1 [M2 [M3 [M4 [M5 [f [M6 [M7 M8]]]]]]]]].
       exists m. split; auto. split; [congruence|]. split.
-      { rewrite M3. destruct R as [R _]. rewrite R. unfold defp in Dp. rewrite Dp. rewrite Eb. reflexivity. }
+      { rewrite M3. symmetry. exact Ed. }
       split; [intros x; rewrite M4, Eb; reflexivity|]. split; [intros t; rewrite M5, Et; reflexivity|].
       exists f. split; auto. split; intros h; [rewrite M7, Eh|rewrite M8, Er]; reflexivity.
     + assert (Ecl : cl = true).
@@ -1185,11 +1185,10 @@ Proof.
 Qed.
 Lemma ready_shrink : forall e c0 c md, mid e c0 c md -> ready c -> ready (config_shrink e c).
 Proof.
-  intros e c0 c md M [R1 R2]. assert (M' := M). destruct M' as [Mb _]. split.
-  - cbn [config_shrink with_h with_b c_b]. rewrite (shrink_items_some e _ _ dn Mb). exact R1.
-  - intros h hc b Hh Hr. rewrite (mid_hitems_shrink e c0 c md M) in Hh.
-    specialize (R2 h hc b Hh Hr). apply isSome_true. cbn [config_shrink with_h with_b c_b].
-    rewrite (shrink_items_some e _ _ b Mb). apply isSome_true. exact R2.
+  intros e c0 c md M R2. assert (M' := M). destruct M' as [Mb _].
+  intros h hc b Hh Hr. rewrite (mid_hitems_shrink e c0 c md M) in Hh.
+  specialize (R2 h hc b Hh Hr). apply isSome_true. cbn [config_shrink with_h with_b c_b].
+  rewrite (shrink_items_some e _ _ b Mb). apply isSome_true. exact R2.
 Qed.
 
 (* the files also are those of a configuration that has the same items *)
@@ -1262,8 +1261,7 @@ Proof.
     - apply (upd_pre_good e _ (i_cfg s0) _ md); auto. }
   destruct P as [P1 P2 P3 P4 P5 P5' P6 P7].
   assert (Dc2 : dom e (config_commit (front_c e c1))) by (apply dom_commit; apply dom_front_c; auto).
-  assert (Dp2 : defp (config_commit (front_c e c1))).
-  { unfold defp. cbn [config_commit c_b backs_commit b_def b_items]. destruct (front_c_fields e c1) as [Hb _]. rewrite Hb. apply Rc1. }
+  assert (Dp2 : defp (config_commit (front_c e c1))) by reflexivity.
   assert (G2 : glob_ok (config_commit (front_c e c1))).
   { unfold glob_ok. cbn [config_commit c_globold c_glob]. intros g Hg. congruence. }
   destruct U as [[Up ->]|[Up [SF ->]]].
@@ -1273,7 +1271,7 @@ Proof.
     destruct St as [F|[F [I0 [Rn0 [Gf0 [Hs Hv]]]]]].
     { exfalso. unfold c1 in Up. rewrite F in Up. unfold updated in Up. cbn in Up. discriminate. }
     unfold c1 in Up. rewrite F in Up.
-    destruct (updated_same e (i_cfg s0) _ md Dsh Msh G0 Up) as [_ [Go [Eg [Et [Eh Eb]]]]].
+    destruct (updated_same e (i_cfg s0) _ md Dsh Msh G0 Dp0 Up) as [_ [Go [Eg [Et [Eh [Eb Edf]]]]]].
     assert (Ecl : i_clean s0 = true).
     { destruct (i_clean s0); auto. destruct (Hv eq_refl) as [Hv' _]. congruence. }
     unfold good, mk_inst. cbn [i_cfg i_disk i_failed i_clean i_running i_pending].
@@ -1292,8 +1290,7 @@ Proof.
       * intros h. cbn [config_commit c_h hosts_commit h_items]. rewrite Hh, Ec1. apply Eh.
       * intros t. cbn [config_commit c_t t_items]. rewrite Ht, Ec1. apply Et.
       * cbn [config_commit c_glob]. rewrite Hg, Ec1. exact Eg.
-      * cbn [config_commit c_b backs_commit b_def]. rewrite Hb, Ec1. destruct Rsh as [R _]. rewrite R.
-        unfold defp in Dp0. rewrite Dp0. rewrite Eb. reflexivity.
+      * cbn [config_commit c_b backs_commit b_def]. rewrite Hb, Ec1. exact Edf.
       * exact Go.
       * apply Gf0. exact Go.
       * apply (di_fmaps _ _ _ I).
@@ -1421,7 +1418,7 @@ Proof.
     split; [|split; [|split; [|split; [|split]]]].
     + apply dom_commit. unfold dom. rewrite Hb, Hh, Ht. exact Dpre.
     + apply clean_commit.
-    + unfold defp. cbn [config_commit c_b backs_commit b_def b_items]. rewrite Hb. apply Rpre.
+    + reflexivity.
     + unfold glob_ok. cbn [config_commit c_globold c_glob]. intros g Hg'. congruence.
     + apply Hn. exact NH0.
     + left. reflexivity.
